@@ -17,6 +17,12 @@ type Layout interface {
 	Raw() bool
 }
 
+// PlainRaw is Plain with every string that can be a raw `...` string written as one.
+type PlainRaw struct{ Plain }
+
+// Raw implements Layout.
+func (PlainRaw) Raw() bool { return true }
+
 // Plain is the canonical layout: single blanks where needed, double-quoted strings.
 type Plain struct{}
 
